@@ -10,16 +10,24 @@ import os
 
 H = []
 
+C05_QUICK = {"c10_decoder_total_q", "c17_iter_blocks_logging_q", "c17_iter_no_buffer", "c14_master_empty_terminates",
+             "c14_master_receive_3slots_q", "c18_livelist_transmit", "c18_livelist_reply_or_timeout", "c18_scanner_transmit",
+             "c18_scanner_reply_or_timeout", "c03_receive_step_q", "c03_transmit_step_q", "c16_receive_one_vs_decoder_q", "c12_gap_lemma"}
+
 
 def h(name, file, module, props, tier="quick", timeout_s=600, mem_gb=8, weight=1, stubbing=False,
       kani_args=(), functions=(), bounds="", obligation="", stubs=(), panic_props=None, derived_loops=(),
       crate="profirust", hang_test=None):
+    # c05_quick: cheap totality harnesses that also make up the QUICK check of C05 (poll() is total);
+    # the thorough check of C05 takes every harness that names C05 among its panic properties
+
     e = dict(name=name, file=file, module=module, props=list(props), tier=tier, timeout_s=timeout_s,
              mem_gb=mem_gb, weight=weight, stubbing=stubbing, kani_args=list(kani_args),
              functions=list(functions), bounds=bounds, obligation=obligation, stubs=list(stubs),
              derived_loops=list(derived_loops), crate=crate, hang_test=hang_test)
     if panic_props is not None:
         e["panic_props"] = list(panic_props)
+    e["c05_quick"] = name in C05_QUICK
     H.append(e)
 
 
@@ -134,13 +142,20 @@ h("c14_master_receive_3slots_q", "dp_master.rs", MV, ["C14"], panic_props=["C14"
   stubs=["Peripheral::receive_reply -> arbitrary post-state under Inv_DP + arbitrary event (its real behaviour is c03_receive_step_*'s subject)"],
   bounds="3 storage slots with symbolic occupancy, any cycle index with a reply outstanding for the slot it denotes; unwind 8",
   obligation="a reply touches only the addressed slot; the cycle advances to the next occupied slot or completes (reported once); the event names the replying peripheral")
-h("c14_master_transmit_2slots_q", "dp_master.rs", MV, ["C14"], panic_props=["C14", "C05"], timeout_s=2400, mem_gb=14, weight=4, functions=MASF, derived_loops=[""], stubbing=True,
-  stubs=["Peripheral::transmit_telegram -> reference behaviour proved by c03_transmit_step_* (request kind, retry counting, Offline event); frame contents not modelled"],
-  bounds="2 storage slots with symbolic occupancy (sparse included), each occupied slot an arbitrary peripheral under Inv_DP (1-byte images, user prm/config present or not); any master state (Stop/Clear/Operate, cycle index or CycleCompleted, last global control); unwind 10",
+MAS_STUB = ["Peripheral::transmit_telegram -> reference behaviour proved by c03_transmit_step_* / c07_refines_transmit (request kind, retry counting, Offline event); frame contents not modelled"]
+for nm, occ in (("both", "both slots occupied"), ("first", "only the first slot occupied"), ("second", "only the second slot occupied (sparse storage)"), ("none", "no slot occupied")):
+    h("c14_master_transmit_2slots_%s_q" % nm, "dp_master.rs", MV, ["C14"], panic_props=["C14", "C05"], timeout_s=1200, mem_gb=10, weight=2, functions=MASF, derived_loops=[""], stubbing=True, stubs=MAS_STUB,
+      bounds="2 storage slots, " + occ + "; each occupied slot an arbitrary peripheral under Inv_DP (state, retry counter, FCB, diagnostics flags, address symbolic; user prm/config present or not); any master state (Stop/Clear/Operate, cycle index or CycleCompleted, last global control) with the global-control telegram NOT due; unwind 6",
+      obligation=MAS_OBL)
+h("c14_master_global_control", "dp_master.rs", MV, ["C14"], panic_props=["C14", "C05"], timeout_s=1500, mem_gb=10, weight=2, functions=MASF, stubbing=True, stubs=MAS_STUB,
+  bounds="any master state with the global-control telegram DUE (low-priority turn; never sent, or >= 50 slot times ago), one unoccupied storage slot; unwind 10",
+  obligation="the reference global-control broadcast (DA 127, DSAP 58, SSAP 62, SDN low, [state, 0]) is sent, its time recorded, the cycle and all peripherals untouched")
+h("c14_master_transmit_2slots_q", "dp_master.rs", MV, ["C14"], panic_props=["C14", "C05"], tier="thorough", timeout_s=3600, mem_gb=14, weight=4, functions=MASF, derived_loops=[""], stubbing=True, stubs=MAS_STUB,
+  bounds="2 storage slots with SYMBOLIC occupancy (sparse included), otherwise as the concrete-occupancy harnesses; global control not due; unwind 10",
   obligation=MAS_OBL)
 h("c14_master_transmit_3slots_t", "dp_master.rs", MV, ["C14"], panic_props=["C14", "C05"], tier="thorough", timeout_s=7200, mem_gb=20, weight=6, functions=MASF, derived_loops=[""], stubbing=True,
   stubs=["Peripheral::transmit_telegram -> reference behaviour proved by c03_transmit_step_*"],
-  bounds="3 storage slots; otherwise as _2slots_q", obligation=MAS_OBL)
+  bounds="3 storage slots with symbolic occupancy; global control not due; unwind 10", obligation=MAS_OBL)
 
 # ---- C18: live list / DP scanner -------------------------------------------------------------------
 LLF = ["<LiveList as FdlApplication>::{transmit_telegram,receive_reply,handle_timeout}", "LiveList::take_last_event", "bitvec BitArray get/set"]
@@ -211,17 +226,17 @@ h("c20_kernel_bitarea_frame_witness", "harness.rs", "harness", ["C20"], crate="e
 PHF = ["ProfibusPhy::{receive_telegram,receive_all_telegrams,poll_pending_received_bytes} (default methods)", "Telegram::deserialize", "KPhy (byte-level harness PHY)"]
 PM = "phy::verif"
 h("c16_receive_all_vs_decoder_q", "phy_mod.rs", PM, ["C16"], panic_props=["C16", "C05"], timeout_s=1800, mem_gb=12, weight=3, functions=PHF,
-  bounds="ANY buffer content of 0..=9 bytes (up to 9 telegrams), one receive_all_telegrams call; unwind 12",
+  bounds="ANY buffer content of 0..=7 bytes (up to 7 telegrams), one receive_all_telegrams call; unwind 10",
   obligation="handed-over telegrams == iterated decoder (in order, once each), is_last iff nothing buffered behind, result forwarded iff last flagged, undecodable data discarded entirely, incomplete telegram untouched")
 h("c16_receive_all_vs_decoder_t", "phy_mod.rs", PM, ["C16"], panic_props=["C16", "C05"], tier="thorough", timeout_s=7200, mem_gb=16, weight=4, functions=PHF,
   bounds="ANY buffer content of 0..=16 bytes; unwind 20", obligation="as _q")
 h("c16_receive_one_vs_decoder_q", "phy_mod.rs", PM, ["C16"], panic_props=["C16", "C05"], timeout_s=900, functions=PHF,
   bounds="ANY buffer content of 0..=9 bytes, one receive_telegram call; unwind 12", obligation="first telegram handed over once, exactly its bytes dropped; garbage discarded; incomplete untouched; pending count == buffered bytes")
 h("c16_chunked_stream_q", "phy_mod.rs", PM, ["C16"], panic_props=["C16", "C05"], timeout_s=1800, mem_gb=12, weight=3, functions=PHF + ["TelegramTx::* (real encoder builds the stream)"],
-  bounds="stream of 2 telegrams from the real encoder (token | SC | SD1 data, all fields symbolic), cut at ANY position into 2 deliveries, symbolic choice of helper after the first; unwind 14",
+  bounds="stream of 2 telegrams from the real encoder (token | SC | SD1 data, all fields symbolic), cut at ANY position into 2 deliveries, symbolic choice of helper after the first; unwind 9",
   obligation="both telegrams received in order, each once, wherever the cut; nothing dropped while incomplete; buffer empty at the end, final telegram flagged last")
 h("c16_garbage_then_telegram_q", "phy_mod.rs", PM, ["C16"], panic_props=["C16", "C05"], timeout_s=1200, functions=PHF,
-  bounds="ANY undecodable prefix of 1..=6 bytes, then one telegram from the real encoder delivered separately; unwind 14", obligation="garbage discarded entirely; the next telegram is received correctly and flagged last")
+  bounds="ANY undecodable prefix of 1..=4 bytes, then one telegram from the real encoder delivered separately; unwind 9", obligation="garbage discarded entirely; the next telegram is received correctly and flagged last")
 
 # ---- C01 time lemmas, C03 watchdog ---------------------------------------------------------------------
 PAV = "fdl::parameters::verif"
@@ -278,6 +293,13 @@ h("c07_silent_goes_offline", "dp_peripheral.rs", PV, ["C07", "C08"], timeout_s=1
   bounds="EVERY live RefMaster state, max_retry_limit 1..15 symbolic, 36 silent turns; unwind 40",
   obligation="exactly one Offline event; exactly 1+limit transmissions (counting earlier ones) before it; afterwards only diagnostics probes with the initial FCB")
 
+LB = L2BOUNDS.replace("baud 500 kbit/s", "baud %s (one bit time is not a whole number of microseconds: every bit/time conversion rounds)")
+for nm, fn, pr, bd, uw in [("l2_listen_token_log_b19200", "do_listen_token", ["C01"], "19.2 kbit/s", 5), ("l2_pass_token_log_b19200", "do_pass_token", ["C01"], "19.2 kbit/s", 5),
+                           ("l2_check_token_pass_log_b19200", "do_check_token_pass", ["C01"], "19.2 kbit/s", 5), ("l2_use_token_1app_b19200", "do_use_token", ["C01", "C13"], "19.2 kbit/s", 10),
+                           ("l2_active_idle_log_b45450", "do_active_idle", ["C01"], "45.45 kbit/s", 5)]:
+    h(nm, "fdl_active.rs", AV, pr, panic_props=pr + ["C05"], timeout_s=1200, mem_gb=10, weight=2, stubbing=True, functions=L2F + ["FdlActiveStation::" + fn], stubs=L2STUBS,
+      bounds=(LB % bd) + "; unwind %d" % uw, obligation="as the 500 kbit/s variant of this step; exercises the rounding of the 33-bit pause, slot time, token-lost time-out, transmission time and hold time")
+
 for nm, fn, pr in [("l2_use_token_3apps_t", "do_use_token", ["C01", "C05", "C13", "C15"]), ("l2_await_data_response_3apps_t", "do_await_data_response", ["C01", "C05", "C06", "C13", "C15"])]:
     h(nm, "fdl_active.rs", AV, pr, panic_props=["C05"], tier="thorough", timeout_s=7200, mem_gb=16, weight=4, stubbing=True, functions=L2F + ["FdlActiveStation::" + fn], stubs=L2STUBS,
       bounds=L2BOUNDS + "; exactly 3 applications; unwind 10", obligation="as the 2-application variant, with 3 applications")
@@ -321,7 +343,7 @@ PROPERTIES = {
     "C01": {
         "claim": "Per-station level (DESIGN §4 C01, §5): for EVERY station state of each of the eight state variants under Inv_FDL, every `now`, every PHY busy flag and every receive buffer content within the bounds, ONE real poll() starts at most one transmission; none while a transmission is (believed to be) in progress; none in a poll in which newly received bytes became visible; every transmission starts more than 33 bit times after the station's last recorded bus activity (exact arithmetic up to 1 us); the own transmission is accounted as bus activity to its last bit; a transmission only happens in a permitted role for the state (token holder; repetition of the own pass after a silent slot; status reply to the pending requester; claim after TTO of silence) with bytes of the matching kind. Pure lemmas for all 11 baud rates: bit/time conversion error < 1 us and monotone; token-lost time-outs of distinct addresses are staggered by >= 2 slot times per address step. The ring-level statement (no two stations transmit at once) is NOT decided: it composes these obligations with single-token-ness (paper argument).",
         "assumptions": ["per-station obligations only; ring-level collision freedom rests on the single-token argument of DESIGN §5",
-                        "step harnesses: baud 500 kbit/s, Tslot 300 bit, TTR 32436 bit fixed (time lemmas cover all baud rates separately); timestamps in [0, 2^40) us",
+                        "step harnesses: baud 500 kbit/s (all eight state variants) plus 19.2 / 45.45 kbit/s variants of five steps (rounding of every conversion), Tslot 300 bit, TTR 32436 bit fixed; timestamps in [0, 2^40) us",
                         "TokenRing mutators abstracted by recorded calls + arbitrary new ring view (L1 lemmas); PHY receive helpers by their contract (C16)"],
         "outside": ["global (multi-station) collision freedom and its timing; cold-start claim race and stale PHY buffers (excluded by the property)"],
     },
@@ -383,7 +405,7 @@ PROPERTIES = {
         "outside": ["builder layouts with several parameters / bit fields sharing a byte / Enum constraints (a two-parameter builder harness ran out of memory in CBMC's propositional reduction; the per-parameter write is covered completely by c20_kernel)"],
     },
     "C16": {
-        "claim": "Bounded: for EVERY buffer content up to 9 (quick) / 16 (thorough) bytes the real helper methods hand over exactly the telegrams the decoder finds one after the other - in order, once, flagged last iff nothing is buffered behind - drop exactly their bytes, discard undecodable data entirely and never touch a still incomplete telegram (the helpers keep no state of their own, so chunking independence follows); additionally shown directly for 2-telegram streams from the real encoder cut at any position; garbage followed by a separately arriving telegram is received correctly. This is also the contract the telegram-level PHY (TPhy) of the station harnesses models.",
+        "claim": "Bounded: for EVERY buffer content up to 7 (quick) / 16 (thorough) bytes the real helper methods hand over exactly the telegrams the decoder finds one after the other - in order, once, flagged last iff nothing is buffered behind - drop exactly their bytes, discard undecodable data entirely and never touch a still incomplete telegram (the helpers keep no state of their own, so chunking independence follows); additionally shown directly for 2-telegram streams from the real encoder cut at any position; garbage followed by a separately arriving telegram is received correctly. This is also the contract the telegram-level PHY (TPhy) of the station harnesses models.",
         "assumptions": ["harness PHY (KPhy) as the byte buffer; SimulatorPhy (Arc<Mutex<Vec>>, a test double) is not encoded"],
         "outside": ["SimulatorPhy; streams of more than 16 buffered bytes; SD2/SD3 frames in the chunking harness (covered by the arbitrary-buffer harnesses up to 16 bytes)"],
     },
